@@ -10,7 +10,7 @@
 //     lock        Lock() … Unlock() region of the guard in the same function
 //     deferLock   Lock(); defer Unlock() in the same function
 //     rlock / deferRLock / confinedR   the same with RLock/RUnlock of a sync.RWMutex: these
-//                 guard READS only (a write under a read lock fails all_sites_guarded)
+//     guard READS only (a write under a read lock fails all_sites_guarded)
 //     confined    the function is only reachable from regions that hold the guard (callers listed)
 //     onceBody    inside (or only reachable from) the function passed to guard.Do
 //     afterOnce   after guard.Do(…) in the same function (or only reachable from such places)
